@@ -336,6 +336,58 @@ def exec_wrapper_handshake(ctx, case: Dict[str, Any]) -> None:
                sample={"case": case, "delivered": len(got_w), "rejections": len(rej)})
 
 
+def exec_slow_consumer(ctx, case: Dict[str, Any]) -> None:
+    """The application is not reading while a batch arrives behind a run of single messages (so the reader is blocked
+    somewhere in the middle of delivering), the version changes, then reading resumes.  Whatever the reader had
+    decided for that batch, it must be all or nothing: every valid member delivered in order and no rejection, or
+    no member delivered and exactly one rejection."""
+    v1, v2, n_before, members = case["v1"], case["v2"], case["singles"], case["batch"]
+    steps: List[Any] = []
+    if v1:
+        steps.append(("version", v1))
+    steps.append(("pause_reading",))
+    singles = [{"jsonrpc": "2.0", "method": "notifications/message", "params": {"level": "info", "data": i}} for i in range(n_before)]
+    payload = b"".join((json.dumps(m) + "\n").encode() for m in singles)
+    payload += (json.dumps([MEMBERS[k] for k in members]) + "\n").encode()
+    steps += [("feed", payload), ("settle",)]
+    if v2:
+        steps.append(("version", v2))
+    steps += [("settle",), ("resume_reading",), ("wait", 1.0)]
+    try:
+        out = run_stdio_script(steps)
+    except Exception as e:  # noqa
+        ctx.violation("harness_or_crash", f"slow consumer: {e!r}", case)
+        return
+    ctx.count("stdio_sessions")
+    ctx.count("slow_consumer_sessions")
+    got = [msg_to_wire(m) for m in out["read"] if not isinstance(m, list)]
+    tail = [norm_wire(g) for g in got if not (g.get("method") == "notifications/message" and isinstance((g.get("params") or {}).get("data"), int))]
+    n_singles = len(got) - len(tail)
+    if n_singles != n_before:
+        ctx.violation("valid_member_lost", f"slow consumer: {n_singles} of {n_before} single messages delivered", case)
+    full = [(norm_wire(MEMBERS[k]), inbound_class(MEMBERS[k]) == "valid") for k in members if inbound_class(MEMBERS[k]) != "invalid"]
+    rej = []
+    for l in out["stdin"].split(b"\n"):
+        if l.strip():
+            try:
+                o = json.loads(l)
+            except Exception:
+                continue
+            if isinstance(o, dict) and isinstance(o.get("error"), dict):
+                rej.append(o)
+    ok_all, why = seq_match(tail, full)
+    accepted = ok_all and not rej
+    rejected = not tail and len(rej) == 1
+    if not (accepted or rejected):
+        ctx.violation("batch_partially_delivered", f"version {v1!r} -> {v2!r} while a batch of {len(members)} was being delivered "
+                      f"to a paused consumer ({n_before} messages ahead of it): {len(tail)} members delivered, {len(rej)} "
+                      f"rejections - neither the whole batch nor a clean rejection ({why})", case)
+    if not out["reader_alive"]:
+        ctx.violation("reader_died", "slow consumer: reader no longer delivers", case)
+    ctx.record(case, shape=[n_singles, len(tail), len(rej)], nontrivial=True, cls="slow_consumer",
+               sample={"case": case, "singles": n_singles, "members": len(tail), "rejections": len(rej)})
+
+
 def exec_two_clients(ctx, case: Dict[str, Any]) -> None:
     """Two stdio clients alive in one process at different negotiated versions: each applies its own rule."""
     from vf.stdio_harness import run_multi_stdio
@@ -448,6 +500,13 @@ def run(ctx):
                 case = {"handshake": hv, "variant": variant, "batch": b}
                 if ctx.mine():
                     exec_wrapper_handshake(ctx, case)
+    for v1, v2 in ((None, "2025-06-18"), ("2025-03-26", "2025-06-18"), ("2025-06-18", "2025-03-26"), ("2024-11-05", "2025-06-19"),
+                   ("2025-03-26", "2024-11-05")):
+        for n_before in (0, 50, 96, 97, 98, 99, 100, 101, 150):
+            for b in (["req", "note", "resp", "err"], ["note", "bad_obj", "req"]):
+                case = {"slow_consumer": True, "v1": v1, "v2": v2, "singles": n_before, "batch": b}
+                if ctx.mine():
+                    exec_slow_consumer(ctx, case)
     for va, vb in itertools.permutations([None, "2025-03-26", "2025-06-18", "2025-06-19", "2024-11-05"], 2):
         for b in (["req", "note"], ["resp", "bad_obj", "err"]):
             for order in ("ab", "ba"):
@@ -459,6 +518,10 @@ def run(ctx):
 
 
 def replay(ctx, case):
+    if case.get("slow_consumer"):
+        exec_slow_consumer(ctx, case)
+        ctx.record({"x": 1}, shape=1)
+        return
     if case.get("two_clients"):
         exec_two_clients(ctx, case)
         ctx.record({"x": 1}, shape=1)
